@@ -310,6 +310,16 @@ def run(ctx, rep):
         dc = [(bb, t) for bb, t, cal, c in b.calls() if cal == LV + "::<T, C>::do_checks"]
         ok = len(rc) == 1 and len(dc) == 1 and b.on_cycle(dc[0][0]) and any(c_[3] == rc[0] for c_ in origin_calls(b.origin(dc[0][1]["args"][1])))
         rep.check(ok, "R6.4", "R6.4|consume_in_order", "the validator processes each received packet once, in FIFO order", run_)
+    # ---------- R6.7 every checked packet goes through the dispatcher: one validator per identifier is a property of
+    # the dispatcher's routing, so nothing else may create a validator or feed one directly (a "single source, skip the
+    # dispatcher" shortcut would push packets of different identifiers through one validator's running state)
+    reach_ = ctx.reachable()
+    feeders = sorted(c_ for c_ in cg.callers(LV + "::<T, C>::do_checks") if c_ in reach_)
+    makers = sorted({c_ for n_ in ("new", "with_chan_capacity") for c_ in cg.callers(LV + "::<T, C>::" + n_) if c_ in reach_ and not c_.startswith(LV)})
+    runners = sorted(c_ for c_ in cg.callers(LV + "::<T, C>::run") if c_ in reach_)
+    ok = feeders == [LV + "::<T, C>::run"] and all(c_.startswith(VD) for c_ in makers) and bool(makers) and all(c_.startswith(VD) for c_ in runners) and bool(runners)
+    rep.check(ok, "R6.7", "R6.7|validators_only_via_dispatcher", "link validators are created and run only by the dispatcher, and fed only by their own receive loop", LV,
+              "a link validator is fed by %s, created by %s, run by %s — packets can reach a validator without being routed by their identifier" % (feeders, makers, runners))
     # ---------- R6.5 sibling masks
     for p, want in (("fastpasta::words::its::layer_from_feeid", Bits(8, [("FEE", 12), ("FEE", 13), ("FEE", 14), 0, 0, 0, 0, 0])),
                     ("fastpasta::words::its::stave_number_from_feeid", Bits(8, [("FEE", i) for i in range(6)] + [0, 0]))):
